@@ -21,6 +21,7 @@ META = {
 ELS = ["line", "trafo", "trafo3w"]
 FULL = {"line": "GEN_line_zero", "trafo": "GEN_trafo_full", "trafo3w": "GEN_t3_full"}
 MINI = {"line": "GEN_line_min", "trafo": "GEN_trafo_min", "trafo3w": "GEN_t3_min"}
+SEQ_EXTRA = {"line": "GEN_line_g", "trafo": "GEN_trafo_tap_lv", "trafo3w": "GEN_t3_tap_lv"}
 
 
 def gen_cases(tier):
@@ -39,6 +40,20 @@ def gen_cases(tier):
                     for tap in ((0, 1) if el != "line" else (0,)):
                         cases.append({"el": el, "type": name, "op": "change", "other": o, "tap": tap})
             cases.append({"el": el, "type": name, "op": "pfst"})
+    for el in ELS:
+        names = st.all_types(el)
+        builtin = [n for n in names if not st.is_generated(n)]
+        pool = [FULL[el], MINI[el], builtin[0], SEQ_EXTRA[el]]
+        if tier == "thorough":
+            pool += [builtin[-1], builtin[len(builtin) // 2]]
+        for old in pool:
+            for new in pool:
+                if old != new:
+                    for how in ("create", "plural", "copy"):
+                        for tap in ((0, 1) if el != "line" else (0,)):
+                            cases.append({"el": el, "op": "seq", "old": old, "type": new, "how": how, "tap": tap})
+        for name in (names if tier == "thorough" else pool):
+            cases.append({"el": el, "op": "seq", "old": name, "type": name, "how": "edit", "tap": 1 if el != "line" else 0})
     for el in ELS + ["fuse", "line_dc"]:
         for name in st.all_types(el) if el != "line_dc" else sorted(st.base_net().std_types["line_dc"]):
             cases.append({"el": el, "type": name, "op": "store"})
@@ -141,19 +156,10 @@ def _case_create(case, out):
     return "|".join(sigs)
 
 
-def _case_change(case, out):
-    el, name, other = case["el"], case["type"], case["other"]
-    lib = st.base_net().std_types[el]
-    data, odata = lib[name], lib[other]
-    tp = st.tap_pos_for(data, case["tap"])
-    if case["tap"] != 0 and tp is None:
-        return None
-    if tp is None and "tap_neutral" in data:
-        tp = data["tap_neutral"]
+def _judge_change(case, net_t, before, data, name, tp, out, prev):
+    """after change_std_type(net_t, first element, name): row completeness + behaviour vs from_parameters"""
+    el = case["el"]
     params = st.type_params(el, data)
-    net_t = st.BUILD[el](st.create_from_type(el, other))(data)
-    before = net_t[el].iloc[0].copy()
-    pp.change_std_type(net_t, net_t[el].index[0], name, element=el)
     if tp is not None:      # the tap position is not part of a type: the user sets it (here: relative to the new type)
         net_t[el].at[net_t[el].index[0], "tap_pos"] = tp
     row = net_t[el].iloc[0]
@@ -166,7 +172,7 @@ def _case_change(case, out):
         ex = _explain_row(case, net_t, p, rv, tv)
         missing.append((p, rv, data[p], ex))
         out["violations"].append(core.violation(
-            "parameter_in_row", {"param": p, "row": rv, "type": tv, "previous_type": other},
+            "parameter_in_row", {"param": p, "row": rv, "type": tv, "previous_type": prev},
             tokens=_tokens(case, "param=" + p) + ex, klass="%s:change:%s" % (el, p)))
     # reference: explicit parameters = values the row had before (for parameters the new type does not define)
     # overridden by every value of the new type
@@ -177,8 +183,124 @@ def _case_change(case, out):
     merged.update(params)
     tpos = tp if tp is not None else (before["tap_pos"] if "tap_pos" in before.index and ic.norm(before["tap_pos"]) is not None else None)
     net_r = st.BUILD[el](st.create_from_params(el, merged, tpos))(data)
-    sigs = _behaviour(case, net_t, net_r, out, data, missing)
+    return _behaviour(case, net_t, net_r, out, data, missing)
+
+
+def _tap_for_change(data, tap):
+    tp = st.tap_pos_for(data, tap)
+    if tap != 0 and tp is None:
+        return False, None
+    if tp is None and "tap_neutral" in data:
+        tp = data["tap_neutral"]
+    return True, tp
+
+
+def _case_change(case, out):
+    el, name, other = case["el"], case["type"], case["other"]
+    data = st.base_net().std_types[el][name]
+    ok, tp = _tap_for_change(data, case["tap"])
+    if not ok:
+        return None
+    net_t = st.BUILD[el](st.create_from_type(el, other))(data)
+    before = net_t[el].iloc[0].copy()
+    pp.change_std_type(net_t, net_t[el].index[0], name, element=el)
+    sigs = _judge_change(case, net_t, before, data, name, tp, out, other)
     return "|".join(sigs)
+
+
+SEQ_NAME = "SEQ_type"
+
+
+def _redefine(net, el, data, how):
+    """redefine the library entry SEQ_NAME with the given data"""
+    data = copy.deepcopy(data)
+    if how == "create":
+        pp.create_std_type(net, data, SEQ_NAME, element=el, overwrite=True, check_required=False)
+    elif how == "plural":
+        pp.create_std_types(net, {SEQ_NAME: data}, element=el, overwrite=True, check_required=False)
+    else:
+        src = pp.create_empty_network(add_stdtypes=False)
+        src.std_types.setdefault(el, {})[SEQ_NAME] = data
+        pp.copy_std_types(net, src, element=el, overwrite=True)
+
+
+def _case_seq(case, out):
+    """operation sequences on the std-type library: a type is defined (old data), an element is created from it, the
+    type is redefined under the SAME name (new data: more / fewer / other keys) or the element is edited by hand, then
+    load_std_type / change_std_type to the same name / create from the name / parameter_from_std_type are judged."""
+    el, how = case["el"], case["how"]
+    lib = st.base_net().std_types[el]
+    d_old, d_new = copy.deepcopy(lib[case["old"]]), copy.deepcopy(lib[case["type"]])
+    ok, tp = _tap_for_change(d_new, case["tap"])
+    if not ok:
+        return None
+
+    def create_old(net, *a):
+        pp.create_std_type(net, copy.deepcopy(d_old), SEQ_NAME, element=el, check_required=False)
+        st.create_from_type(el, SEQ_NAME)(net, *a)
+
+    net_t = st.BUILD[el](create_old)(d_new)
+    idx = net_t[el].index[0]
+    if how == "edit":       # hand edit of every numeric type parameter, the type is then re-applied
+        for p, v in st.type_params(el, d_old).items():
+            if isinstance(v, (int, float)) and not isinstance(v, bool) and p in net_t[el].columns and v:
+                net_t[el].at[idx, p] = v * 1.5
+    else:
+        _redefine(net_t, el, d_new, how)
+    c_load = dict(case, op="store")
+    out["n"] += 1
+    loaded = pp.load_std_type(net_t, SEQ_NAME, element=el)
+    if not _same(loaded, d_new):
+        out["violations"].append(core.violation(
+            "load_returns_stored", {"step": "redefine_same_name", "how": how, "extra_keys": sorted(set(loaded) - set(d_new)),
+                                    "missing_keys": sorted(set(d_new) - set(loaded))},
+            tokens=_tokens(c_load, "step=redefine_same_name", "how=" + how), klass=el + ":store:redefine"))
+    # change_std_type to the name the element already carries
+    before = net_t[el].iloc[0].copy()
+    pp.change_std_type(net_t, idx, SEQ_NAME, element=el)
+    c_ch = dict(case, op="change")
+    sigs = _judge_change(c_ch, net_t, before, d_new, SEQ_NAME, tp, out, case["old"])
+    # parameter_from_std_type sees the current definition
+    for p, v in d_new.items():
+        out["n"] += 1
+        try:
+            pp.parameter_from_std_type(net_t, p, element=el)
+            got = ic.norm(net_t[el][p].iloc[0])
+        except Exception as e:
+            got = "raised:" + type(e).__name__
+        if not ic.veq(got, ic.norm(v)):
+            out["violations"].append(core.violation("parameter_from_std_type", {"param": p, "row": got, "type": ic.norm(v)},
+                                                    tokens=_tokens(dict(case, op="pfst"), "param=" + p, "seq"), klass=el + ":pfst:value"))
+    if how != "edit":
+        # a new element created from the redefined name
+        def create_new(net, *a):
+            pp.create_std_type(net, copy.deepcopy(d_old), SEQ_NAME, element=el, check_required=False)
+            _redefine(net, el, d_new, how)
+            st.create_from_type(el, SEQ_NAME, tp)(net, *a)
+        c_cr = dict(case, op="create")
+        params = st.type_params(el, d_new)
+        net_c = st.BUILD[el](create_new)(d_new)
+        net_r = st.BUILD[el](st.create_from_params(el, params, tp))(d_new)
+        row = net_c[el].iloc[0]
+        out["n"] += 1
+        missing = []
+        for p, rv, tv in st.row_mismatches(el, row, params):
+            ex = _explain_row(c_cr, net_c, p, rv, tv)
+            missing.append((p, rv, d_new[p], ex))
+            out["violations"].append(core.violation("parameter_in_row", {"param": p, "row": rv, "type": tv},
+                                                    tokens=_tokens(c_cr, "param=" + p) + ex, klass="%s:create:%s" % (el, p)))
+        # parameters of the OLD definition must not leak into the new element
+        ref_row = net_r[el].iloc[0]
+        for p in st.applicable(el):
+            if p in d_old and p not in d_new:
+                rv = ic.norm(row[p]) if p in row.index else None
+                fv = ic.norm(ref_row[p]) if p in ref_row.index else None
+                if not ic.veq(rv, fv):
+                    out["violations"].append(core.violation(
+                        "parameter_in_row", {"param": p, "row": rv, "from_parameters_row": fv, "leaked_from_old_definition": ic.norm(d_old[p])},
+                        tokens=_tokens(c_cr, "param=" + p, "leak"), klass="%s:create:leak" % el))
+        sigs += _behaviour(c_cr, net_c, net_r, out, d_new, missing)
+    return "seq|" + "|".join(sigs)
 
 
 def _same(a, b):
@@ -230,6 +352,16 @@ def _case_store(case, out):
     o, r = step("overwrite", lambda: pp.create_std_type(net, other, "X_new2", element=el, overwrite=True))
     if o != "ok" or not _same(pp.load_std_type(net, "X_new2", element=el), other):
         bad("overwrite", {"raised": o})
+    # redefinition of an existing name with FEWER keys (required ones only) and then with the full set again
+    req = set(pp.std_types.required_std_type_parameters(el))
+    fewer = {k: v for k, v in snap.items() if k in req} or {sorted(snap)[0]: snap[sorted(snap)[0]]}
+    if set(fewer) != set(snap):
+        o, r = step("redefine_fewer", lambda: pp.create_std_type(net, copy.deepcopy(fewer), "X_new2", element=el, overwrite=True, check_required=False))
+        if o != "ok" or not _same(pp.load_std_type(net, "X_new2", element=el), fewer):
+            bad("redefine_fewer", {"raised": o, "extra_keys": sorted(set(net.std_types[el].get("X_new2", {})) - set(fewer))})
+        o, r = step("redefine_more", lambda: pp.create_std_type(net, copy.deepcopy(snap), "X_new2", element=el, overwrite=True))
+        if o != "ok" or not _same(pp.load_std_type(net, "X_new2", element=el), snap):
+            bad("redefine_more", {"raised": o})
     # plural
     o, r = step("create_std_types", lambda: pp.create_std_types(net, {"X_pl1": copy.deepcopy(snap), "X_pl2": copy.deepcopy(other)}, element=el))
     if o != "ok" or not _same(pp.load_std_type(net, "X_pl1", element=el), snap) or not _same(pp.load_std_type(net, "X_pl2", element=el), other):
@@ -355,7 +487,7 @@ def _case_fuse(case, out):
     return "fuse"
 
 
-_OPS = {"create": _case_create, "change": _case_change, "store": _case_store, "copy": _case_copy, "pfst": _case_pfst,
+_OPS = {"create": _case_create, "change": _case_change, "seq": _case_seq, "store": _case_store, "copy": _case_copy, "pfst": _case_pfst,
         "fuse": _case_fuse}
 
 
